@@ -27,7 +27,7 @@ from checks.sctp_common import base_problems
 from vlib.patches import TimeShim, patched
 from vlib.runner import Check, Family, Outcome, Stats
 from vlib.sctpsim import Session, chunk_types
-from vlib.strategies import session_case
+from vlib.strategies import create_op, send_op, session_case
 
 # --------------------------------------------------------------------------
 # (a) serial arithmetic
@@ -135,8 +135,21 @@ def _transcript(case: dict, tsn: list, ssn_shift: int):
 
     s.on_message = on_message
     shifted = {"done": False, "skipped": False}
+    closes = {"n": 0}
 
     def extra_op(n: int, op: dict) -> None:
+        if op.get("op") == "idleclose":
+            # a close at an instant at which no user data is queued or in flight in either direction: a stream reset that
+            # overtakes data is the recorded C13 finding, and what happens to the overtaken data depends on its stream
+            # sequence number - not the question here
+            if not s.channels or any(t._sent_queue or t._outbound_queue or t._data_channel_queue or
+                                     any(st_.reassembly for st_ in t._inbound_streams.values()) for t in s.sctp):
+                return
+            ch = s.channels[op.get("ch", 0) % len(s.channels)].objs.get(op.get("side", 0) % 2)
+            if ch is not None:
+                closes["n"] += 1
+                ch.close()
+            return
         if op.get("op") != "shift_ssn" or shifted["done"]:
             return
         shifted["done"] = True
@@ -168,9 +181,11 @@ def _transcript(case: dict, tsn: list, ssn_shift: int):
 
     s.after_each_op = after_each
     s.run()
+    s.closes_done = closes["n"]
     final = (tuple(len(r.delivered[0]) for r in s.channels), tuple(len(r.delivered[1]) for r in s.channels),
              tuple(len(t._sent_queue) + len(t._outbound_queue) for t in s.sctp), tuple(t.state for t in s.sctp),
-             s.idle_status, round(s.virtual_end, 6), tuple(s.t3_expiries))
+             s.idle_status, round(s.virtual_end, 6), tuple(s.t3_expiries),
+             tuple((r.idx, side, ch.readyState, ch.id) for r in s.channels for side, ch in sorted(r.objs.items())))
     return s, log, final, shifted
 
 
@@ -206,11 +221,15 @@ def run_sctp_origin(case: dict) -> Outcome:
             classes.add("ssn-wrap")
     if any(s1.t3_expiries):
         classes.add("t3")
+    if getattr(s1, "closes_done", 0):
+        classes.add("close")
+        if any(t._reconfig_request_seq < 1000 for t in s1.sctp):
+            classes.add("reconfig-seq-wrap")
     if getattr(s1, "forward_tsn_seen", False):
         classes.add("forward-tsn")
     if s1.link and sum(s1.link.dropped) + sum(s1.link.delayed) + sum(s1.link.duplicated):
         classes.add("faults")
-    nt = ("tsn-wrap" in classes or "ssn-wrap" in classes) and "faults" in classes
+    nt = ("tsn-wrap" in classes or "ssn-wrap" in classes or "reconfig-seq-wrap" in classes) and "faults" in classes
     cl = tuple(sorted(classes))
     for s, name in ((s1, "wrapping"), ):
         bp = base_problems(s)
@@ -227,6 +246,45 @@ def run_sctp_origin(case: dict) -> Outcome:
     if fin0 != fin1:
         return Outcome(f"final state differs: small origins {fin0}, origins below the wrap {fin1}", "origin-final-state-differs", nt, cl)
     return Outcome(None, None, nt, cl)
+
+
+@st.composite
+def reconfig_origin_case(draw, tier="quick"):
+    """As sctp_origin_case, with channels being closed and created again along the way: every close is a RE-CONFIG stream
+    reset request in each direction, numbered from the initial TSN - placed 0..3 below 2^32, so the request / response
+    sequence numbers (and the duplicate test on them) go through the wrap."""
+    base = draw(sctp_origin_case(tier))
+    nchan = sum(1 for o in base["ops"] if o.get("op") == "create")
+    extra = []
+    for _ in range(draw(st.integers(2, 10))):
+        k = draw(st.sampled_from(["close", "close", "send", "send", "create"]))
+        if k == "close":
+            extra.append({"op": "idleclose", "ch": draw(st.integers(0, nchan - 1)), "side": draw(st.integers(0, 1)), "dt": draw(st.sampled_from([200, 3000, 15000, 15000]))})
+        elif k == "create":
+            extra.append(dict(draw(create_op(reliable_only=True)), dt=draw(st.sampled_from([0, 50, 300]))))
+            nchan += 1
+        else:
+            extra.append(draw(send_op(nchan)))
+    # interleave with the tail of the program (order within each list is kept)
+    ops = base["ops"]
+    pos = next((i for i, o in enumerate(ops) if o.get("op") == "shift_ssn"), len(ops) - 1) + 1
+    tail = ops[pos:]
+    merged = []
+    closing: set = set()
+    while tail or extra:
+        take_extra = extra and (not tail or draw(st.booleans()))
+        o = extra.pop(0) if take_extra else tail.pop(0)
+        if o.get("op") == "idleclose":
+            closing.add(o["ch"])
+        elif o.get("op") == "send" and o["ch"] in closing:
+            # nothing is sent on a channel once either side may have asked to close it: data racing with the stream reset
+            # is the recorded C13 finding again
+            continue
+        merged.append(o)
+    base["ops"] = ops[:pos] + merged
+    base["below"]["tsn0"] = draw(st.integers(0, 3))
+    base["below"]["tsn1"] = draw(st.integers(0, 3))
+    return base
 
 
 @st.composite
@@ -423,6 +481,7 @@ CHECK = Check(
         Family("serial16-all-pairs", run_serial, custom=serial16_exhaustive, custom_shards=lambda tier: 16, thorough_only=True),
         Family("sctp-origin", run_sctp_origin, sctp_origin_case, quick=1500, thorough=50000, min_shard=20),
         Family("ssn-abandon", run_sctp_origin, ssn_abandon_case, quick=1500, thorough=50000, min_shard=20),
+        Family("reconfig-origin", run_sctp_origin, reconfig_origin_case, quick=1500, thorough=50000, min_shard=20),
         Family("jitter-origin", run_jitter_origin, jitter_origin_case, quick=3000, thorough=100000, min_shard=100),
         Family("nack-origin", run_nack_origin, nack_origin_case, quick=3000, thorough=100000, min_shard=100),
         Family("stats-origin", run_stats_origin, stats_origin_case, quick=3000, thorough=100000, min_shard=100),
